@@ -104,7 +104,12 @@ type c04subject struct {
 	cleanup func()
 }
 
-var c04items = []treeItem{{Path: "d", Dir: true, Perm: 0o755}, {Path: "d/x", Perm: 0o644, Data: "dx"}, {Path: "f", Perm: 0o644, Data: "ff"}, {Path: "m", Dir: true, Perm: 0o755}, {Path: "d/m2", Dir: true, Perm: 0o755}}
+var c04items = []treeItem{{Path: "d", Dir: true, Perm: 0o755}, {Path: "d/x", Perm: 0o644, Data: "dx"}, {Path: "f", Perm: 0o644, Data: "ff"}, {Path: "m", Dir: true, Perm: 0o755}, {Path: "d/m2", Dir: true, Perm: 0o755},
+	// entries whose (valid) names contain what some operating system uses as a separator or a drive
+	{Path: `w\in`, Perm: 0o644, Data: "backslash"}, {Path: `d/C:x`, Perm: 0o644, Data: "colon"}, {Path: `d/..dots`, Dir: true, Perm: 0o755}}
+
+// c04unusualItems exist in the populated state and must be found under exactly their names
+var c04unusualItems = []string{`w\in`, `d/C:x`, `d/..dots`}
 
 func newC04Subject(env *core.Env, name string, populatedState bool) (*c04subject, error) {
 	items := c04items
@@ -412,6 +417,25 @@ func c04run(env *core.Env, idx int) core.CaseResult {
 		if after := sub.state(); after != before {
 			res.Violate(sig+"changed", fmt.Sprintf("[%s] %s with invalid name %q changed a file system (%s -> %s)", cs.Subject, cs.Op, name, before, after), wit)
 			before = after
+		}
+	}
+	// entries with unusual valid names that exist are found under their names (on every kind, also after being unpacked or cached)
+	if cs.Populated && cs.Op == "Stat" && cs.Subject != "tar-broken" && cs.Subject != "sub-mount" { // (sub-mount is a view of d: other names)
+		for _, name := range c04unusualItems {
+			r := fsx.Exec(sub.fs, fsx.Step{K: "Stat", P: name}, &hs, nil)
+			res.Count("valid_calls", 1)
+			if !r.OK() {
+				res.Violate(fmt.Sprintf("C04|%s|Stat|valid-unusual|existing-not-found", cs.Subject), fmt.Sprintf("[%s] %q was put there under exactly this (valid) name; Stat returns %s", cs.Subject, name, r), map[string]any{"case": cs, "name": name})
+			}
+		}
+		if entries, err := hackpadfs.ReadDir(sub.fs, "."); err == nil {
+			found := false
+			for _, e := range entries {
+				found = found || e.Name() == `w\in`
+			}
+			if !found {
+				res.Violate(fmt.Sprintf("C04|%s|ReadDir|valid-unusual|existing-not-listed", cs.Subject), fmt.Sprintf("[%s] the root does not list %q (listing: %s)", cs.Subject, `w\in`, fsx.EntriesString(entries)), cs)
+			}
 		}
 	}
 	// valid names with unusual bytes are never refused as invalid, and are not split
